@@ -408,6 +408,20 @@ func zzSymStr(n int) string { return zzrt.String("s", n) }
 // zzLen is the container / string length used by the builders (a harness argument).
 var zzLen = 1
 
+// zzInnerAlt: a container that sits directly inside a container gets length 0, 1, 0, 1 ... by
+// position (the first inner container of a value is empty) instead of zzLen. zzAlt is reset by
+// the harness before each value, so two values built one after the other have the same shape.
+var zzInnerAlt bool
+var zzNest, zzAlt int
+
+func zzCLen() int {
+	if zzInnerAlt && zzNest > 0 {
+		zzAlt++
+		return (zzAlt - 1) % 2
+	}
+	return zzLen
+}
+
 // zzDepth bounds recursion through optional self references.
 var zzDepth = 1
 
